@@ -55,6 +55,8 @@ func execNetworkSimplex(g *graph.DGraph, params graph.Params) {
 		vbalance(g)
 	case 2:
 		p.hbalance(g)
+		// balancing shifts whole subtrees upward, possibly above layer zero
+		normalize(g)
 	}
 }
 
